@@ -1,4 +1,4 @@
-"""C05 — inbound publishes acked correctly; QoS 2 surfaces exactly once."""
+"""C01 — every accepted operation resolves exactly once, with its own acknowledgement."""
 
 PROP = {'areas': [{'area': 'engine',
             'corpus': ['corpus/engine/d11_half_encoded_connect_service_time.script',
@@ -9,11 +9,11 @@ PROP = {'areas': [{'area': 'engine',
                        'corpus/engine/d7_alias_after_failed_validation.script',
                        'corpus/engine/d9_connack_before_connect_flushed.script'],
             'extra': ['100'],
-            'only_prop': 'C05',
+            'only_prop': 'C01',
             'quick': 4000,
             'thorough': 400000,
-            'tie_fields': ['out', 'ev', 'hq', 'q2in', 'ops']}],
- 'coq_target': 'Properties/C05.vo',
+            'tie_fields': ['done', 'ops', 'uq', 'rq', 'hq', 'cur', 'pwco', 'ppub', 'pnon', 'nextid', 'outcome']}],
+ 'coq_target': 'Properties/C01.vo',
  'modelled': 'protocol.rs ProtocolState: handle_user_event, handle_network_event (opened / closed / incoming data / write completion), service '
              '(pending-connack / connected / pending-disconnect), get_next_service_timepoint, reset and every helper they call (operation table, three intake '
              'queues, current operation, pending tables, ack-timeout heap, packet-id allocation, slow start, keep-alive, session handling, all packet '
@@ -33,13 +33,16 @@ PROP = {'areas': [{'area': 'engine',
          'which the monitor turns false and the script that reproduces it). distinct = distinct command scripts; non-trivial = reached at least one '
          'interesting predicate (x_interesting_predicates_reached)'}
 
-META = {'design_ref': 'DESIGN.md section 7 / C05',
+META = {'design_ref': 'DESIGN.md section 7 / C01',
  'level_note': 'Trusted: Coq kernel; the tie (facade engine.rs, harness, OCaml driver incl. the generator); the reference codec used by the simulated broker '
                '(SpecDecodeC2S / SpecEncodeS2C); abstract component hypotheses of the engine theorems (no-panic of codec / validators / resolvers) are '
                'discharged in the codec / validation / alias developments or stated as premises.',
- 'level_text': 'Coq theorems for every state: QoS 1 publish surfaces once and queues exactly one PUBACK(id) at the back of the high-priority queue; QoS 2 '
-               'first delivery surfaces and is remembered, a duplicate of an unreleased id is acknowledged but not surfaced, PUBREL releases the id and queues '
-               'PUBCOMP; the set survives connection close (C05_close_keeps_inbound_qos2) and a session-present CONNACK and is forgotten by a session-absent '
-               'CONNACK (C05_session_decides_memory); ack order on the wire is the monitor mon_c05_acks on the implementation trace',
+ 'level_text': 'Coq theorems over ALL event histories (induction over runs of the engine model, no assumption on events or components): C01_at_most_once (no '
+               'operation id appears twice among the completions of a whole run), C01_done_was_submitted (every completion belongs to an earlier submission), '
+               'C01_ids_inv_* (ids strictly increasing, never reused), C01_reset / C01_reset_any (after reset every container is empty and every user '
+               'operation has exactly one error completion), and for every state: C01_own_ack_kind, C01_suback_own, C01_unsuback_own, C01_puback_own, '
+               'C01_pubrec_own, C01_pubcomp_own, C01_flush_value (a completion carries the acknowledgement type of its operation kind, for the packet id it is '
+               'pending under, with one code per entry). "Never silently dropped" is the tracking invariant of the WF development (C11) plus the monitors '
+               'mon_unique_completion / mon_own_ack / mon_reset_clears on the implementation trace.',
  'technique': 'machine-checked proof in Coq over the engine model + lock-step correspondence of the extracted model with the implementation + extracted '
               'monitors on the implementation trace'}
